@@ -27,6 +27,9 @@ BUILT.update({
             "Proof over the model for every decoder and every byte string; the real decoders are run on encodings whose model-marked don't-care bytes are overwritten (library-written, capture).",
             NOTE, "DESIGN.md §6 C12"),
 })
+BUILT["C06"] = ("Lean 4 layout theorems (little-endian fields, header 64 / entry 288 with field offsets, reserved zeros, string and track layout, EMG bias, Tdf.new image) with the Lean encoders/decoders as the independent layout-driven codec; two-way inverse from C01+C12+C02; + byte-equality correspondence both directions incl. the BTS capture",
+            "The model's encoders are the independent encoder of the property; theorems pin the layout for all values; real _write output is compared byte for byte, real decoders run on model-encoded bytes, entries/headers/Tdf.new likewise, and the capture (8 blocks, pinned sha-256) is decoded by both and compared in full.",
+            NOTE + " The capture checks are tests on one input.", "DESIGN.md §6 C06")
 CONT = "Lean 4 refinement proof: byte-level L0 model of add/remove/replace/setters (seek/write/truncate) simulates the list-of-blocks spec on every well-formed layout (add_sim, remove_sim, run_sim by induction over histories, any table length); "
 BUILT.update({
     "C03": (CONT + "corollary wfB(image)=true; + seeded history correspondence with Lean's wfB judging the real bytes after every call",
